@@ -303,7 +303,12 @@ def stepLine1 (r : RState) (op impl : String) : RState × String :=
         | some _ => res ++ s!" asyncerrs={r.asyncSeen + r.pendingAsync}"
         | none => res
       let v := ansVerdict a
+      -- a persisted callback the model says was invoked with nil (`observe … .ack`) and the run never saw, in a lifetime that ended with a clean close
+      let missing : Option Nat := match r.crashed, implAcked with
+        | false, some l => (sortDedup r.d.s.acked).find? fun c => !l.contains c
+        | _, _ => none
       let v := if v.startsWith "bad" then v
+        else if missing.isSome && r.d.sync then s!"bad:acknowledgement-never-delivered batch={missing.getD 0} the persist it waited for succeeded; its callback was not invoked / its Batch call did not return nil"
         else if r.pendingAsync > 0 then "bad:async-error-not-fired a persist failed and the asynchronous error callback was not invoked"
         else if !r.expectNack.isEmpty then s!"bad:error-not-surfaced safe batch {r.expectNack.headD 0} waited on a failed persist and its Batch call did not return the error"
         else v
@@ -341,8 +346,10 @@ def stepLine1 (r : RState) (op impl : String) : RState × String :=
       | ["msegend", _, "1", "0"] => ({ r with inexact := true }, a)
       | ["snapend", _, "1", "1"] => ({ r with everComplete := true }, a)
       | ["pfail", cl] =>
-          let nacks := match pre.job with | some j => j.acks | none => []
-          ({ r with pendingAsync := if cl == "0" then r.pendingAsync + 1 else r.pendingAsync, expectNack := r.expectNack ++ nacks,
+          -- what the persister must SAY now (`Bluge.Persist.observe`): the error to every safe batch of the failed grab,
+          -- the asynchronous error unless the writer is closing
+          let o := observe pre (.persistFail (cl == "1"))
+          ({ r with pendingAsync := if o.asyncErr then r.pendingAsync + 1 else r.pendingAsync, expectNack := r.expectNack ++ o.errTo,
                     mustCover := max r.mustCover pre.applied }, a)
       | ["ack", _] =>
           -- C14 (retry_covers): the acknowledgement that follows a failed persist covers everything applied when the
